@@ -52,14 +52,23 @@ pub proof fn lemma_le_nat_append(a: Seq<u8>, b: Seq<u8>)
     ensures le_nat(a + b) == le_nat(a) + pow256(a.len()) * le_nat(b)
     decreases a.len()
 {
-    if a.len() == 0 { assert(a + b =~= b); } else {
+    if a.len() == 0 {
+        assert(a + b =~= b);
+        assert(pow256(0) == 1);
+        assert(1 * le_nat(b) == le_nat(b));
+    } else {
         let a1 = a.subrange(1, a.len() as int);
-        assert((a + b).subrange(1, (a + b).len() as int) =~= a1 + b);
+        let ab = a + b;
+        assert(ab.len() > 0 && ab[0] == a[0]);
+        assert(ab.subrange(1, ab.len() as int) =~= a1 + b);
         lemma_le_nat_append(a1, b);
-        let x = pow256(a1.len()); let y = le_nat(b);
+        let x = pow256(a1.len()); let y = le_nat(b); let z = le_nat(a1);
+        assert(a1.len() == a.len() - 1);
         assert(pow256(a.len()) == 256 * x);
-        assert(le_nat(a + b) == (a[0] as nat) + 256 * le_nat(a1 + b));
-        assert(256 * (le_nat(a1) + x * y) == 256 * le_nat(a1) + (256 * x) * y) by (nonlinear_arith);
+        assert(le_nat(ab) == (a[0] as nat) + 256 * le_nat(a1 + b));
+        assert(le_nat(a) == (a[0] as nat) + 256 * z);
+        assert(le_nat(a1 + b) == z + x * y);
+        assert(256 * (z + x * y) == 256 * z + (256 * x) * y) by (nonlinear_arith);
     }
 }
 pub proof fn lemma_le_nat_zeros(k: nat) ensures le_nat(zeros(k)) == 0 decreases k {
@@ -241,6 +250,9 @@ pub assume_specification<'a, T: Copy, const N: usize> [<[T; N] as TryFrom<&'a [T
 // ASSUMED(std): <[T]>::to_vec copies the slice
 pub assume_specification<T: Clone> [<[T]>::to_vec] (s: &[T]) -> (r: Vec<T>)
     ensures r@ == s@;
+// ASSUMED(std): Vec::extend appends the items the argument yields (iter_ok / into_seq: prelude_common)
+pub assume_specification<T, A: core::alloc::Allocator, I: IntoIterator<Item = T>> [<Vec<T, A> as Extend<T>>::extend] (v: &mut Vec<T, A>, i: I)
+    ensures iter_ok(i) ==> final(v)@ == old(v)@ + into_seq(i);
 // ASSUMED(dep): color_eyre::Report is built from any std error by `?` (blanket From<E: Error>); no panic
 impl From<core::array::TryFromSliceError> for Report {
     #[verifier::external_body]
@@ -278,7 +290,7 @@ pub open spec fn vec_u8_bytes(v: Seq<u8>) -> Seq<u8> { le64(v.len()) + v }
 
 // reading: the field element encoded at offset `off` (reduced modulo P, as bytes_le_to_fr does)
 pub open spec fn dec_fr(s: Seq<u8>, off: int) -> nat { le_nat(s.subrange(off, off + 32)) % P() }
-pub open spec fn dec_u64(s: Seq<u8>, off: int) -> nat { le_nat(s.subrange(off, off + 8)) }
+pub open spec fn dec_u64(s: Seq<u8>, off: int) -> int { le_nat(s.subrange(off, off + 8)) as int }
 // canonical: the 32 bytes at `off` encode a value below the field order
 pub open spec fn canonical_at(s: Seq<u8>, off: int) -> bool { le_nat(s.subrange(off, off + 32)) < P() }
 
